@@ -28,6 +28,8 @@ func (u *Unit) modSort(name string, t types.Type) string {
 		return fmt.Sprintf("(Array Int (Array %s Bool))", s.sortOf(mt.Key()))
 	case strings.HasPrefix(name, "SB:"):
 		return "String"
+	case name == "GH:clock":
+		return "Int"
 	case strings.HasPrefix(name, "MV:"):
 		mt := t.Underlying().(*types.Map)
 		return fmt.Sprintf("(Array Int (Array %s %s))", s.sortOf(mt.Key()), s.sortOf(mt.Elem()))
@@ -198,6 +200,9 @@ func (fr *frame) callStatic(fn *ssa.Function, args []*Val, bindings []*Val, st *
 	if fn.Signature.Results().Len() == 1 {
 		resT = fn.Signature.Results().At(0).Type()
 	}
+	if v := fr.nativeSlices(fn, c, args, st, reach); v != nil {
+		return v
+	}
 	if fn.Synthetic == "package initializer" {
 		// initialisation of other packages is outside the unit
 		u.abstract("package-init-call")
@@ -213,6 +218,14 @@ func (fr *frame) callStatic(fn *ssa.Function, args []*Val, bindings []*Val, st *
 		return fr.callSpecBuiltin(fn, args, resT, st, reach)
 	}
 	// receiver nil-check for pointer-receiver methods on repo types is a precondition of every method (implicit)
+	if isRepoFunc(fn) && !fr.pure && u.locksUsed && u.eng.mayPanic(fn, 0) && !fr.unlockDeferred() {
+		// a lock taken without a deferred unlock must not be held across a call that can panic: net/http recovers the
+		// panic and keeps serving, the lock stays taken for ever
+		h := u.heapGet(st, "GH:locks", "(Array Int Int)")
+		u.oblige(fr.obName("lock-across-panic", funcName(fn)), "lock", []string{"C19", "C20"}, reach,
+			fmt.Sprintf("(= %s ((as const (Array Int Int)) 0))", h), fr.pos(pos),
+			"no lock is held (other than under a deferred unlock) across a call to "+funcName(fn)+", which can panic")
+	}
 	if isRepoFunc(fn) {
 		key := funcName(fn)
 		if ct := u.eng.contracts[key]; ct != nil && !fr.pure && !(fr.depth == 0 && fr.fn == fn) {
@@ -354,6 +367,14 @@ func (fr *frame) applyContract(fn *ssa.Function, ct *Contract, args []*Val, resT
 		rvals = []*Val{res}
 	}
 	for _, e := range ct.Ensures {
+		if e.Fn == nil && !e.Canary && u.eng.broken[e.FnName] != "" {
+			// a postcondition of the callee no longer type-checks (its signature changed): it cannot be assumed here, and
+			// what this unit then fails to prove is undecided, not violated
+			u.calleeStale = append(u.calleeStale, fmt.Sprintf("%s: postcondition %s of callee %s", funcName(u.fn), e.Label, funcName(fn)))
+			if u.calleeStaleAt == 0 || len(u.cmds) < u.calleeStaleAt {
+				u.calleeStaleAt = len(u.cmds) + 1
+			}
+		}
 		if e.Fn == nil || e.Canary {
 			continue
 		}
@@ -558,6 +579,20 @@ func (fr *frame) applyExtern(key string, ec *ExternContract, args []*Val, resT t
 		fr.assumeEnsures(ec, args, res, resT, st, nil, reach)
 		return res
 	}
+	if ec.ClockReads {
+		// a clock reading: the same value for the same ghost epoch, which calls that can take time move on
+		ep := u.heapGet(st, "GH:clock", "Int")
+		res := fr.ufApply("ext:"+key, append(append([]types.Type{}, argT...), types.Typ[types.Int]), append(append([]*Val{}, args...), &Val{t: ep}), resT, st)
+		fr.assumeResultWF(res, resT, st, reach)
+		fr.assumeEnsures(ec, args, res, resT, st, nil, reach)
+		return res
+	}
+	if ec.ClockAdvances && !fr.pure {
+		old := u.heapGet(st, "GH:clock", "Int")
+		ne := u.declare("epoch", "Int")
+		u.assume(reach, fmt.Sprintf("(> %s %s)", ne, old))
+		u.heapSet(st, "GH:clock", "Int", ne)
+	}
 	if ec.Pure || fr.pure {
 		res := fr.ufApply("ext:"+key, argT, args, resT, st)
 		fr.assumeResultWF(res, resT, st, reach)
@@ -748,11 +783,11 @@ func (fr *frame) callSpecBuiltin(fn *ssa.Function, args []*Val, resT types.Type,
 		// under verification (after its entry): it cannot be something an earlier invocation, a cache, a pool or a package
 		// variable still holds. (Declared per argument type as a bodyless `ghost func allocatedHereT(x T) bool`.)
 		a := args[0]
-		if a.t == "" && a.lv != nil && a.lv.kind == lvCell {
-			return &Val{t: "true"}
+		if a.t == "" && a.lv != nil && a.lv.kind == lvCell && strings.HasPrefix(a.lv.name, "C:") {
+			return &Val{t: "true"} // a local of this invocation
 		}
 		if a.t == "" || u.alloc0 == "" {
-			return &Val{t: "false"}
+			return &Val{t: "false"} // a package variable, or something without an address of its own
 		}
 		if _, isSlice := fn.Signature.Params().At(0).Type().Underlying().(*types.Slice); isSlice {
 			return &Val{t: fmt.Sprintf("(>= (s-arr %s) %s)", a.t, u.alloc0)}
@@ -1002,6 +1037,51 @@ func stableHash(s string) int {
 		h = (h*131 + int(s[i])) % 1000003
 	}
 	return h + 1
+}
+
+// unlockDeferred: an unlock is among the deferred calls of this frame or of a frame it is inlined into.
+func (fr *frame) unlockDeferred() bool {
+	for f := fr; f != nil; f = f.parent {
+		for _, d := range f.defers {
+			if c := d.instr.Common(); c != nil && !c.IsInvoke() {
+				if sf := c.StaticCallee(); sf != nil {
+					switch externKey(sf) {
+					case "(*sync.RWMutex).RUnlock", "(*sync.RWMutex).Unlock", "(*sync.Mutex).Unlock":
+						return true
+					}
+				}
+			}
+		}
+	}
+	return false
+}
+
+// mayPanic: the function, or a /repo function it calls statically, contains a panic statement.
+func (e *Engine) mayPanic(fn *ssa.Function, depth int) bool {
+	if v, ok := e.panics[fn]; ok {
+		return v
+	}
+	if depth > 6 {
+		return false
+	}
+	e.panics[fn] = false // cycles
+	res := false
+	for _, b := range fn.Blocks {
+		for _, in := range b.Instrs {
+			switch x := in.(type) {
+			case *ssa.Panic:
+				res = true
+			case ssa.CallInstruction:
+				if c := x.Common(); !c.IsInvoke() {
+					if sf := c.StaticCallee(); sf != nil && isRepoFunc(sf) && len(sf.Blocks) > 0 && e.mayPanic(sf, depth+1) {
+						res = true
+					}
+				}
+			}
+		}
+	}
+	e.panics[fn] = res
+	return res
 }
 
 func (fr *frame) lockOp(key string, args []*Val, st *State, reach string, pos token.Pos) (*Val, bool) {
